@@ -100,6 +100,9 @@ func c06gen(r *gen.R, testing bool) c06case {
 		}
 	}
 	c.ts = r.Time()
+	if r.P(3) {
+		c.ts = time.Time{} // the zero instant is an instant like any other: the call carries it
+	}
 	c.tagW = 3
 	c.minW = 36
 	if r.P(40) {
@@ -307,6 +310,7 @@ func neutralV(v gen.V) gen.V {
 }
 
 func c06main(c *Ctx) {
+	registerHostileTitles() // only as attribute VALUES here: a Level value prints its title, a string like any other
 	registerCustomLevels()
 	if c.X("nocolormode", "") == "1" {
 		// the application's process-wide "--no-color" switch (hedzr/is) is on: whatever a colored record then carries in
